@@ -139,6 +139,9 @@ class Parent:
         self.depth = 0
         self.maxdepth = 0
         self.on_enter = None
+        import wikitextprocessor.luaexec as lx
+        anchors.watch({"luaexec.call_lua_sandbox": lx.call_lua_sandbox, "luaexec.make_frame": (lx.call_lua_sandbox, "make_frame"),
+                       "core.Wtp.expand": core.Wtp.expand, "core.Wtp.start_page": core.Wtp.start_page})
         orig = core.call_lua_sandbox
         me = self
 
@@ -167,6 +170,7 @@ def child_run(par, prog, limit, followups, jump, wfd):
         rep["events"] = clock.events[-40:]
         rep["polls"] = clock.polls
         rep["maxdepth"] = par.maxdepth
+        rep["anchors"] = anchors.snapshot()
         try:
             os.write(wfd, json.dumps(rep, default=str).encode())
         finally:
@@ -374,6 +378,8 @@ def run_shard(spec):
                  sample={"program": pages[-1][2][:400], "call": call, "limit": limit, "events": rep.get("events", [])[:8],
                          "result": (rep.get("result") or "")[:120], "deadline_poll": rep.get("deadline_poll"), "polls_at_return": rep.get("polls_at_return")})
         obs.add("body-wrapper-pairs", b + "/" + w)
+        for k, v in rep.get("anchors", {}).items():
+            obs.anchors[k] = obs.anchors.get(k, 0) + v
         obs.count("polls", rep.get("polls", 0))
         obs.count("hook.arm", sum(1 for e in rep.get("events", []) if e[0] == "arm"))
         obs.count("hook.clear", sum(1 for e in rep.get("events", []) if e[0] == "clear"))
@@ -395,8 +401,6 @@ def run_shard(spec):
         for sig, msg in probs:
             obs.violation(sig, msg[:600], case)
     par.close()
-    anchors_note = {}
-    obs.anchors.update(anchors_note)
     return obs
 
 
